@@ -38,6 +38,16 @@ CLAIMED = {
    note="Trusted: Coq kernel, extraction, harness; truth of individual tests is an oracle computed by the harness; argv-level parsing of operands is C11's.",
    technique="Coq proof (mutual induction over the grammar; token-stream invariant with ghost frames) + differential correspondence",
    design="5 C01"),
+ "C14": dict(
+   text="Coq theorems about a transcription of the operand parser, ComparableValue::matches/imatches and byte_size_to_unit_size, with the unit table regenerated from size.rs on every run: N/+N/-N mean =, >, <; exactly one of the three holds for every value; monotonicity; the operand is read as sign + decimal value + suffix with 64-bit overflow rejected; the measured size is the byte size divided by the unit rounded up (-size -1k only empty files, -size 1M sizes 1..2^20). Tied to /repo by in-process find runs on sparse files at every unit boundary up to 5 GiB, link counts, inode numbers and owner ids.",
+   note="Trusted: Coq kernel, extraction, harness, the table translator (tools/extract_tables.py; a located table that differs breaks Proofs/TablesOk.v), stat fields via os.lstat.",
+   technique="Coq proof (arithmetic; table regenerated from source) + differential correspondence",
+   design="5 C14"),
+ "C15": dict(
+   text="Coq theorems over the same Numeric model: for timestamps not in the future the measured age is the number of complete periods (86400 s or 60 s) in now - timestamp at nanosecond resolution, compared as in C14; -newer/-newerXY are strict comparisons. Which timestamps are compared (entry's X, reference's Y) is tied to /repo by in-process runs with an injected clock on files whose a/m times are set with utimensat and all nine XY combinations.",
+   note="Trusted: Coq kernel, extraction, harness; SystemTime/duration_since arithmetic is modelled in Z nanoseconds; -daystart and birth time not covered.",
+   technique="Coq proof (integer division facts) + differential correspondence with injected clock",
+   design="5 C15"),
 }
 ALL = ["C%02d" % i for i in range(1, 21)]
 def main():
